@@ -533,6 +533,16 @@ func TestVerifC10b(t *testing.T) {
 		mut{"unsupported-version", "null", func(d map[string]any) { d["configVersion"] = nil }},
 		mut{"unsupported-version", "missing with v1 fields", func(d map[string]any) { delete(d, "configVersion") }},
 	)
+	// metadata.name in a fieldSelector excludes nameSelector.matchNames whatever the operator and
+	// wherever the expression stands in the list
+	for _, op := range []string{"NotEquals", "!=", "==", "="} {
+		op := op
+		muts = append(muts, mut{"invalid-selector", "fieldSelector metadata.name " + op + " together with matchNames", func(d map[string]any) {
+			at(d, "kubernetes", 0).(map[string]any)["fieldSelector"] = map[string]any{"matchExpressions": []any{
+				map[string]any{"field": "status.phase", "operator": "Equals", "value": "Running"},
+				map[string]any{"field": "metadata.name", "operator": op, "value": "x"}}}
+		}})
+	}
 	r.Bound("fault_classes", []string{"unknown-field", "bad-crontab", "unknown-include", "ambiguous-include", "invalid-selector", "unsupported-version"})
 	r.Bound("mutations", len(muts))
 	load := func(b []byte) (err error, pan any) {
